@@ -13,7 +13,7 @@ use crate::exprm::{self, bin, num, un, BinOp, Radix, UnOp, Val, BINOPS, E, FUNCS
 use crate::report::{cov, machinery_fail, Report, Tier};
 use crate::sut::Outcome;
 
-const PROLOGUE: &str = ".equ k_five = 5\n.equ k_sum = 1 + 2\n.equ k_chain = k_sum * k_five - 1\n.equ K_Neg = -3\n.equ dbl0 = 1 + 0\n.equ dbl1 = dbl0 + dbl0\n.equ dbl2 = dbl1 + dbl1\n.equ dbl3 = dbl2 + dbl2\n.equ dbl4 = dbl3 + dbl3\n.equ dbl5 = dbl4 + dbl4\n.equ dbl6 = dbl5 + dbl5\n.equ dbl7 = dbl6 + dbl6\n.equ dbl8 = dbl7 + dbl7\n.dseg\nlbl_a: .byte 2\nLbl_B: .byte 1\n.cseg\n";
+const PROLOGUE: &str = ".equ k_five = 5\n.equ k_sum = 1 + 2\n.equ k_chain = k_sum * k_five - 1\n.equ K_Neg = -3\n.equ dbl0 = 1 + 0\n.equ dbl1 = dbl0 + dbl0\n.equ dbl2 = dbl1 + dbl1\n.equ dbl3 = dbl2 + dbl2\n.equ dbl4 = dbl3 + dbl3\n.equ dbl5 = dbl4 + dbl4\n.equ dbl6 = dbl5 + dbl5\n.equ dbl7 = dbl6 + dbl6\n.equ dbl8 = dbl7 + dbl7\n.equ low = 0x20\n.equ exp2 = 3\n.equ fn_mix = low(lbl_a) + low + exp2(exp2)\n.dseg\nlbl_a: .byte 2\nLbl_B: .byte 1\n.cseg\n";
 const EPILOGUE: &str = ".equ k_late = 9\n";
 
 struct XCase {
@@ -206,12 +206,14 @@ fn gen(tier: Tier) -> Vec<XCase> {
         }
     }
     // (e) literal forms and symbols
+    // (values whose hex digits begin like a radix prefix or spell a register, a function or a
+    // pointer name are among them: 0xb11, 0xbad, 0xb, 0x0b0b, 0xe, 0xabcdef, 0xface, 0xdead)
     let lit_values: Vec<i64> = vec![
         0, 1, 7, 8, 9, 10, 15, 16, 32, 48, 63, 64, 65, 97, 122, 126, 127, 128, 255, 256, 511, 512, 1000, 4095, 4096, 32767,
-        32768, 65535, 65536, 1 << 31, 1 << 32, 1 << 62, i64::MAX,
+        32768, 65535, 65536, 1 << 31, 1 << 32, 1 << 62, i64::MAX, 0xb, 0xb11, 0xbad, 0xb0b, 0xb1, 0xb0, 0xe, 0xabcdef, 0xface, 0xdead, 0xb10, 0xb101,
     ];
     for val in &lit_values {
-        for r in [Radix::Dec, Radix::HexDollar, Radix::Hex0xLower, Radix::Hex0xUpper, Radix::Bin, Radix::Oct, Radix::Char] {
+        for r in [Radix::Dec, Radix::HexDollar, Radix::Hex0xLower, Radix::Hex0xUpper, Radix::Bin, Radix::Oct, Radix::Char, Radix::HexDollarLead0, Radix::HexDollarUpper, Radix::Hex0xLead0, Radix::BinLead0, Radix::OctLead0] {
             if r == Radix::Char && !((32..=126).contains(val) && *val != 39 && *val != 34) {
                 continue;
             }
@@ -219,6 +221,20 @@ fn gen(tier: Tier) -> Vec<XCase> {
             v.push(XCase { e: bin(BinOp::Add, E::Num(*val, r), E::Num(1, r)), group: "literals" });
             v.push(XCase { e: un(UnOp::Neg, E::Num(*val, r)), group: "literals" });
         }
+    }
+    // constants named like built-in functions, alone, as argument of their namesake, and inside a
+    // definition that cannot be evaluated where it stands (it mentions a later label)
+    {
+        let low = E::Sym("low".into(), 0x20);
+        let exp2s = E::Sym("exp2".into(), 3);
+        let fn_mix = E::Sym("fn_mix".into(), 0x60 + 0x20 + 8);
+        v.push(XCase { e: low.clone(), group: "symbols" });
+        v.push(XCase { e: E::Func("low", Box::new(low.clone())), group: "symbols" });
+        v.push(XCase { e: bin(BinOp::Add, E::Func("low", Box::new(E::Sym("lbl_a".into(), 0x60))), low.clone()), group: "symbols" });
+        v.push(XCase { e: E::Func("exp2", Box::new(exp2s.clone())), group: "symbols" });
+        v.push(XCase { e: bin(BinOp::Mul, exp2s.clone(), E::Func("high", Box::new(bin(BinOp::Shl, low.clone(), num(8))))), group: "symbols" });
+        v.push(XCase { e: fn_mix.clone(), group: "symbols" });
+        v.push(XCase { e: bin(BinOp::Sub, fn_mix, low), group: "symbols" });
     }
     let syms = vec![
         E::Sym("k_five".into(), 5),
